@@ -229,7 +229,7 @@ def check(ctx, case):
 
 def shard(ctx):
     bobproc.warm()
-    run_hypothesis(ctx, case_st(ctx.quick()), lambda c: check(ctx, c), ctx.n(240, 6000), shrink=False, minimize=("edits", "noise"))
+    run_hypothesis(ctx, case_st(ctx.quick()), lambda c: check(ctx, c), ctx.n(640, 6000), shrink=False, minimize=("edits", "noise"))
 
 def replay(ctx, case):
     run_case(ctx, case, confirm=True)
